@@ -4,6 +4,8 @@ import (
 	"net/http"
 	"net/http/httputil"
 	"net/url"
+
+	middlewareapi "github.com/oauth2-proxy/oauth2-proxy/v7/pkg/apis/middleware"
 )
 
 //assume: C17.director: httputil.NewSingleHostReverseProxy's own director is represented by its documented effect on scheme and host (path/query joining is irrelevant once Opaque is set); the outgoing request line is url.URL.RequestURI() = Opaque when set, RawQuery empty and ForceQuery false (documented net/url behaviour, not executed)
@@ -49,3 +51,48 @@ func vh_C17_director() {
 		verifAssert("C17.director.host-header-is-backend", req.Host == "backend.example:8080")
 	}
 }
+
+// the per-upstream handler: every request reaching it is handed to exactly one of the two
+// proxies, the websocket one only for a websocket handshake and only when websocket
+// proxying is enabled -- and never crashes, whatever the handshake headers
+// verif: unwind=4 strlen=10 also=C19
+func vh_C17_upstream_serve() {
+	plain, ws := 0, 0
+	h := &httpUpstreamProxy{upstream: "backend",
+		handler: http.HandlerFunc(func(http.ResponseWriter, *http.Request) { plain++ })}
+	wsEnabled := ndBool("proxy-websockets")
+	if wsEnabled {
+		h.wsHandler = http.HandlerFunc(func(http.ResponseWriter, *http.Request) { ws++ })
+	}
+	hdr := http.Header{}
+	if ndBool("has-connection") {
+		conn := ndString("connection")
+		verifAssume(len(conn) <= 8) // case-insensitive comparison is executed per length
+		hdr["Connection"] = []string{conn}
+	}
+	if ndBool("has-upgrade") {
+		hdr["Upgrade"] = []string{ndString("upgrade")}
+	}
+	scope := &middlewareapi.RequestScope{}
+	req := middlewareapi.AddRequestScope(&http.Request{Method: "GET", URL: &url.URL{Path: "/ws"}, Header: hdr}, scope)
+	h.ServeHTTP(&vDirRW{}, req)
+	verifAssert("C17.serve.exactly-one-proxy", plain+ws == 1)
+	verifAssert("C17.serve.upstream-recorded", scope.Upstream == "backend")
+	if ws == 1 {
+		verifReach("websocket")
+		verifAssert("C17.serve.websocket-only-when-enabled-and-handshake", wsEnabled && len(hdr["Upgrade"]) == 1 && hdr["Upgrade"][0] == "websocket")
+	} else {
+		verifReach("plain")
+	}
+}
+
+type vDirRW struct{ hdr http.Header }
+
+func (w *vDirRW) Header() http.Header {
+	if w.hdr == nil {
+		w.hdr = http.Header{}
+	}
+	return w.hdr
+}
+func (w *vDirRW) Write(b []byte) (int, error) { return len(b), nil }
+func (w *vDirRW) WriteHeader(int)             {}
